@@ -211,7 +211,7 @@ func HotColdDiff(n *Node, s *Snap) (string, string) {
 	cs := n.App.CurrentState()
 	for _, a := range s.Accounts {
 		if got := cs.Accounts().GetNonce(a); got != s.Nonce[a] {
-			return "hot-nonce", fmt.Sprintf("nonce of %s hot %d cold %d", a, got, s.Nonce[a])
+			return "hot-nonce", fmt.Sprintf("nonce of %s hot %d cold %d", a.String(), got, s.Nonce[a])
 		}
 		ids := make([]uint64, 0)
 		for id := range s.Bal[a] {
@@ -220,7 +220,7 @@ func HotColdDiff(n *Node, s *Snap) (string, string) {
 		sort.Slice(ids, func(i, j int) bool { return ids[i] < ids[j] })
 		for _, id := range ids {
 			if got := cs.Accounts().GetBalance(a, coinID(id)); got.Cmp(s.Bal[a][id]) != 0 {
-				return "hot-balance", fmt.Sprintf("balance of %s coin %d hot %s cold %s", a, id, got, s.Bal[a][id])
+				return "hot-balance", fmt.Sprintf("balance of %s coin %d hot %s cold %s", a.String(), id, got, s.Bal[a][id])
 			}
 		}
 	}
